@@ -9,7 +9,7 @@ to parse a seed SMILES into the graph and to read back returned species.
 """
 from itertools import permutations
 
-VALENCE = {'C': 4, 'O': 2, 'H': 1, 'N': 3}
+VALENCE = {'C': 4, 'O': 2, 'H': 1, 'N': 3, 'S': 2, 'P': 3}
 
 H_ATOM = ('H',)
 
@@ -65,11 +65,13 @@ def components(atoms, bonds):
 
 
 def valence_ok(atoms, bonds):
-    tot = [h for (_, h) in atoms]
+    # like the package's filter: default valence of the element, whatever
+    # the formal charge
+    tot = [a[1] for a in atoms]
     for (i, j), o in bonds.items():
         tot[i] += o
         tot[j] += o
-    return all(t <= VALENCE[e] for t, (e, _) in zip(tot, atoms))
+    return all(t <= VALENCE[a[0]] for t, a in zip(tot, atoms))
 
 
 def from_canon(c):
@@ -85,10 +87,11 @@ def from_canon(c):
 def _xh_scission(elem):
     def rule(atoms, bonds):
         out = []
-        for i, (e, h) in enumerate(atoms):
+        for i, at in enumerate(atoms):
+            e, h = at[0], at[1]
             if e == elem and h > 0:
                 a = list(atoms)
-                a[i] = (e, h - 1)
+                a[i] = (e, h - 1) + tuple(at[2:])
                 out.append([(a, dict(bonds)), ([], {})])
         return out
     return rule
@@ -209,14 +212,15 @@ def mol_to_canon(mol):
     heavy = {}
     atoms = []
     for a in mol.GetAtoms():
-        if a.GetFormalCharge() != 0:
-            return None
         if a.GetSymbol() == 'H':
+            if a.GetFormalCharge() != 0:
+                return None
             continue
         if a.GetSymbol() not in VALENCE:
             return None
         heavy[a.GetIdx()] = len(atoms)
-        atoms.append((a.GetSymbol(), a.GetTotalNumHs(includeNeighbors=True)))
+        atoms.append((a.GetSymbol(), a.GetTotalNumHs(includeNeighbors=True),
+                      a.GetFormalCharge()))
     bonds = {}
     for b in mol.GetBonds():
         i, j = b.GetBeginAtomIdx(), b.GetEndAtomIdx()
@@ -240,7 +244,8 @@ def show(c):
     if c == H_ATOM:
         return '[H]'
     lab, bl = c
-    return '%s|%s' % (','.join('%s%s' % (e, 'H%d' % h if h else '')
-                               for e, h in lab),
+    return '%s|%s' % (','.join('%s%s%s' % (a[0], 'H%d' % a[1] if a[1] else '',
+                                           '%+d' % a[2] if len(a) > 2 and a[2]
+                                           else '') for a in lab),
                       ','.join('%d%s%d' % (i, '-=#'[o - 1], j)
                                for i, j, o in bl))
